@@ -147,6 +147,27 @@ def run(ck, prog, tier):
               len(outs) == 1 and outs[0].kind == 'return' and outs[0].value == IDENT,
               'a viewBox with %d tokens must give (1,1,0,0); got %r' % (
                   n, [(o.kind, o.value) for o in outs]), fn.loc(), key='vb_scale::identity-tokens')
+    # a viewBox whose tokens are not numbers is malformed too: float() of a token may raise
+    # ValueError, which must end in the identity transform, not in an exception
+    class BadNumber(VbHooks):
+        def may_raise(self, target, args, st, node):
+            if isinstance(target, ExtRef) and target.dotted == 'builtins.float' and args and \
+                    isinstance(args[0], Opaque) and args[0].label.startswith('vbtok'):
+                return ['ValueError']
+            return ()
+    hk = BadNumber(ar=1)
+    outs = interp(NONE, hk)
+    esc = [o for o in outs if o.kind == 'raise' and 'ValueError' in str(o.value)]
+    ck.ob('C11-D4-identity', 'vb_scale::non-numeric-tokens', not esc,
+          'a viewBox with a token that is not a number ("0 0 abc 100") makes vb_scale raise '
+          'ValueError (from float()); a malformed viewBox must give the identity transform '
+          '(1,1,0,0)', fn.loc(), key='vb_scale::identity-non-numeric')
+    caught = [o for o in outs if o.kind == 'return' and any(
+        n[0] == 'caught' and 'ValueError' in n[1] for n in o.state.notes)]
+    for o in caught:
+        ck.ob('C11-D4-identity', 'vb_scale::non-numeric-tokens-value', o.value == IDENT,
+              'after a token failed to convert vb_scale returns %r instead of (1,1,0,0)'
+              % (o.value,), fn.loc(), key='vb_scale::identity-non-numeric-value')
     # tokenisation pipeline of the viewBox
     hk = VbHooks(ar=1)
     interp(NONE, hk)
